@@ -165,10 +165,10 @@ func checkRange(c *core.Ctx) {
 	if init != iv+" := "+startVar+".Int" {
 		bad = "the counter must start at the start argument (`i := start.Int`); init is `" + init + "`"
 	}
-	if cond != iv+" < "+endVar+".Int" {
+	if cond != iv+" < "+endVar+".Int" && cond != endVar+".Int > "+iv {
 		bad = "the loop must run while i < end (half-open range); condition is `" + cond + "`"
 	}
-	if post != iv+"++" {
+	if post != iv+"++" && post != iv+" += 1" && post != iv+" = "+iv+" + 1" {
 		bad = "the counter must advance by one; post statement is `" + post + "`"
 	}
 	// body: one produce of NewRecord([NewInt(i)], false, zero time)
